@@ -34,7 +34,7 @@ ASSUMPTIONS = [
 run_lean_unit = base.run_lean_unit
 
 METHODS = ["auto", "linprog", "highs", "highs-ds", "highs-ipm", "SLSQP", "trust-constr", "L-BFGS-B", "BFGS",
-           "Nelder-Mead", "COBYLA", "Newton-CG"]
+           "Nelder-Mead", "COBYLA", "Newton-CG", "Powell", "TNC", "CG"]
 
 
 def route_recipes(rng, thorough):
@@ -164,6 +164,14 @@ SEQ_NLP = ["SLSQP", "trust-constr", "L-BFGS-B", "BFGS", "Nelder-Mead", "COBYLA",
 SEQ_LP = ["auto", "linprog", "highs", "highs-ds", "highs-ipm"]
 
 
+def apply_seq_edit(P, edit):
+    v0 = P.variables[0]
+    if edit == "ub":
+        v0.ub = (v0.ub if v0.ub is not None else 4.0) + 1.0
+    elif edit == "constraint":
+        P.subject_to(v0 <= 64.0)
+
+
 def sequence_cases(rep, rng, recs, thorough, with_model=True):
     """several solves on ONE Problem object (the first warms `_solver_cache` / `_lp_cache` /
     `_is_linear_cache`): the guard must act on EVERY call — raise under strict, warn otherwise"""
@@ -188,10 +196,21 @@ def sequence_cases(rep, rng, recs, thorough, with_model=True):
                         continue
                     P, _ = problem_from(r, kind)
                     D = domain_set(P)
-                    # second / third call may use another method of the same family (cache shared)
+                    # second / third call may use another method of the same family (cache shared); on linear
+                    # problems the LP path and the NLP path are interleaved on the one Problem object
                     ms = [method, methods[(mi + 1) % len(methods)], method]
+                    if kind.startswith("lin") and (pi + mi) % 2:
+                        ms[1] = SEQ_NLP[(pi + mi) % (len(SEQ_NLP) - 1)]
+                    edits = []
                     for step, strict in enumerate(pattern):
                         m = ms[step]
+                        edit = None
+                        if step > 0 and (pi + mi + step) % 3 == 0:
+                            # an edit between the solves (every cache is invalidated / bounds are re-read)
+                            edit = "ub" if (pi + mi) % 2 else "constraint"
+                            apply_seq_edit(P, edit)
+                            D = domain_set(P)
+                        edits.append(edit)
                         variant = (pi + step) % 3
                         r1, r2 = results_for(P, variant)
                         lr = base.LRes(True, 0, [0.5] * len(P.variables), 1.0, 3)
@@ -199,7 +218,8 @@ def sequence_cases(rep, rng, recs, thorough, with_model=True):
                             lines.append(base.model_line("solve", P, m, strict, True, None, r1, r2, lr, None))
                         text, info = base.observe(P, "solve", m, strict, True, None, r1, r2, lr)
                         meta = {"recipe": r, "kind": kind, "call": "solve", "method": m, "strict": strict,
-                                "variant": variant, "sequence": {"pattern": list(pattern), "methods": ms, "step": step}}
+                                "variant": variant, "sequence": {"pattern": list(pattern), "methods": ms, "step": step,
+                                                                 "edits": list(edits)}}
                         metas.append((meta, text))
                         bad = judge(meta, text, info, D, dom)
                         if bad is not None:
@@ -218,6 +238,36 @@ def sequence_cases(rep, rng, recs, thorough, with_model=True):
             rep.nontrivial.add(hash(str(meta)))
 
 
+def lifetime_cases(rep, rng, thorough):
+    """models dropped and rebuilt in one process with the SAME variable names but different domains: the guard must
+    follow the model at hand (no verdict may survive in a module-level cache keyed by names)"""
+    from optyx import Problem, VectorVariable
+
+    doms = ["binary", "continuous", "integer", "continuous", "binary", "integer"]
+    for rnd in range(40 if thorough else 10):
+        for kind in ("c@r", "r.dot(r)", "elementwise"):
+            for step in range(len(doms)):
+                dom = doms[(step + rnd) % len(doms)]
+                method = METHODS[(rnd + step) % len(METHODS)]
+                strict = bool((rnd + step) % 2)
+                r = ("vec", "z", 3, 0.0, 1.0, dom)
+                P, h = sole_problem(r, kind)
+                D = domain_set(P)
+                r1, r2 = results_for(P, 0)
+                lr = base.LRes(True, 0, [0.5] * len(P.variables), 1.0, 3)
+                text, info = base.observe(P, "solve", method, strict, True, None, r1, r2, lr)
+                meta = {"recipe": r, "kind": kind, "call": "solve", "method": method, "strict": strict, "variant": 0, "sole": True}
+                bad = judge(meta, text, info, D, dom)
+                rep.evaluations += 1
+                rep.histogram["lifetime:" + dom] = rep.histogram.get("lifetime:" + dom, 0) + 1
+                if D:
+                    rep.nontrivial.add(hash(("life", rnd, kind, step)))
+                if bad is not None:
+                    bad.update({"kind_of_case": "sole", "case": meta, "note": f"round {rnd}, step {step} of a same-name rebuild sequence"})
+                    rep.oracle_failures.append(bad)
+                del P, h
+
+
 def replay_sequence(c):
     r = _tup(c["recipe"])
     P, _ = problem_from(r, c["kind"])
@@ -228,6 +278,9 @@ def replay_sequence(c):
     bad = None
     for step in range(seq["step"] + 1):
         strict, m = seq["pattern"][step], seq["methods"][step]
+        if seq.get("edits") and seq["edits"][step]:
+            apply_seq_edit(P, seq["edits"][step])
+            D = domain_set(P)
         pi = SEQ_PATTERNS.index(tuple(seq["pattern"]))
         r1, r2 = results_for(P, (pi + step) % 3)
         lr = base.LRes(True, 0, [0.5] * len(P.variables), 1.0, 3)
@@ -240,8 +293,8 @@ def replay_sequence(c):
 
 # ----------------------------------------------------------------------------- a view as the sole modelling object
 
-SOLE_KINDS_VEC = ["c@r", "r.sum()", "r.dot(r)", "norm(r)", "(r**2).sum()", "c@r|r.dot(r)", "elementwise"]
-SOLE_KINDS_MAT = ["M.sum()", "frobenius", "(M*M).sum()", "elementwise"]
+SOLE_KINDS_VEC = ["c@r", "r.sum()", "r.dot(r)", "norm(r)", "(r**2).sum()", "c@r|r.dot(r)", "elementwise", "deep-450"]
+SOLE_KINDS_MAT = ["M.sum()", "frobenius", "(M*M).sum()", "elementwise", "trace", "M>=0|sum"]
 SOLE_KINDS_VAR = ["x", "(x-a)**2"]
 
 
@@ -279,6 +332,11 @@ def sole_problem(recipe, kind, relax=False):
             P.maximize(-1.0 * (h ** 2).sum())
         elif kind == "c@r|r.dot(r)":
             P.minimize(c @ h).subject_to(h.dot(h) <= 4.0)
+        elif kind == "deep-450":
+            e = h[0] * 1.0
+            for i in range(450):
+                e = e + float(1 + i % 3) * h[i % n] + 0.25
+            P.minimize(e)
         else:
             e = h[0] * 1.0
             for i in range(1, n):
@@ -291,6 +349,10 @@ def sole_problem(recipe, kind, relax=False):
             P.minimize(frobenius_norm(h))
         elif kind == "(M*M).sum()":
             P.maximize(-1.0 * (h * h).sum())
+        elif kind == "trace" and h.rows == h.cols:
+            P.minimize(h.trace())
+        elif kind == "M>=0|sum":
+            P.minimize(h.sum()).subject_to(h >= 0.25)
         else:
             e = None
             for v in hd.handle_elements(h):
@@ -450,6 +512,9 @@ def judge(meta, text, info, D, dom):
             if list(exc.variable_names or []) != D:
                 return {"what": "IntegerVariableError does not list exactly the non-continuous variables",
                         "listed": list(exc.variable_names or []), "expected": D}
+            if not all(n in str(exc) for n in D):
+                return {"what": "the text of IntegerVariableError does not name every non-continuous variable",
+                        "text": str(exc)[:300], "expected": D}
             return None
         lp_forced = meta["method"] in (None, "linprog", "highs", "highs-ds", "highs-ipm") or meta["call"] == "solve-lp"
         if name == "NonLinearError" and lp_forced and (meta["kind"].startswith("nl") or meta.get("sole")):
@@ -530,6 +595,7 @@ def run(ctx) -> core.Report:
     guard_cases(rep, rng, guard_recs, thorough)
     sole_view_cases(rep, rng, pick_views(recs, 3 if thorough else 1), thorough)
     sequence_cases(rep, rng, guard_recs, thorough)
+    lifetime_cases(rep, rng, thorough)
     rep.exhaustive = True
     return rep
 
